@@ -927,6 +927,21 @@ type IfFeature struct {
 	extensions []*Extension
 }
 
+// the member types of a union are compiled per leaf like the union itself: a
+// relative leafref path among them starts at the leaf the copy belongs to
+func cloneTypes(orig []*Type) []*Type {
+	if orig == nil {
+		return nil
+	}
+	c := make([]*Type, len(orig))
+	for i, t := range orig {
+		cpy := *t
+		cpy.unionTypes = cloneTypes(t.unionTypes)
+		c[i] = &cpy
+	}
+	return c
+}
+
 func (y *IfFeature) Expression() string {
 	return y.expr
 }
